@@ -7,6 +7,7 @@ package main
 
 import (
 	"fmt"
+	"os"
 	"go/constant"
 	"go/token"
 	"go/types"
@@ -378,6 +379,9 @@ func (hc *helperCtx) alwaysCrosses(h *ssa.Function, bars []Barrier, args []*Expr
 	}
 	if ok {
 		hc.always[k] = 1
+		if os.Getenv("SDNSVERIF_DEBUG_HELPER") != "" {
+			fmt.Fprintf(os.Stderr, "DEBUG alwaysCrosses %s bars=%d\n", h.Name(), len(bars))
+		}
 	} else {
 		hc.always[k] = 2
 	}
@@ -424,6 +428,9 @@ func (hc *helperCtx) resultImplies(h *ssa.Function, idx int, want bool, bars []B
 	}
 	if ok {
 		hc.implies[k] = 1
+		if os.Getenv("SDNSVERIF_DEBUG_HELPER") != "" {
+			fmt.Fprintf(os.Stderr, "DEBUG resultImplies %s idx=%d want=%v nret=%d\n", h.Name(), idx, want, nret)
+		}
 	} else {
 		hc.implies[k] = 2
 	}
